@@ -42,7 +42,11 @@ ASSUMPTIONS = ["integer-valued data so that int64 and float64 hold the same valu
                "update is index-semantic by design: only representations with the same index are compared"]
 
 REPS = ["nd2_float", "nd2_int", "df_int", "df_strcols", "df_offset", "df_step", "df_datetime",
-        "df_period", "df_datetime_str_int"]
+        "df_period", "df_datetime_str_int",
+        # the same numbers in other memory layouts / block structures (still ndarray or DataFrame of
+        # int64 / float64): Fortran order, a strided view of a larger array, a read-only array, a
+        # frame assembled column by column (one block per column), a frame mixing int64 and float64
+        "nd2_fortran", "nd2_strided_int", "nd2_readonly", "df_blocks", "df_mixed_dtypes"]
 REPS_P1 = ["series_float", "series_named_int", "nd1_float", "series_datetime"]
 
 
@@ -63,6 +67,26 @@ def represent(X, rep, offset=0):
         return Xf.copy()
     if rep == "nd2_int":
         return X.astype(np.int64).copy()
+    if rep == "nd2_fortran":
+        return np.asfortranarray(Xf)
+    if rep == "nd2_strided_int":
+        big = np.full((2 * n + 1, 2 * p + 1), 7, dtype=np.int64)
+        big[1::2, ::2][:, :p] = X
+        return big[1::2, ::2][:, :p]
+    if rep == "nd2_readonly":
+        a = Xf.copy()
+        a.setflags(write=False)
+        return a
+    if rep == "df_blocks":
+        df = pd.DataFrame(index=idx("range0"))
+        for j in range(p):
+            df[j] = Xf[:, j]
+        return df
+    if rep == "df_mixed_dtypes":
+        df = pd.DataFrame(index=idx("range0"))
+        for j in range(p):
+            df[j] = X[:, j].astype(np.int64) if j % 2 == 0 else Xf[:, j]
+        return df
     if rep == "df_int":
         return pd.DataFrame(X.astype(np.int64), index=idx("range0"), columns=cols)
     if rep == "df_strcols":
